@@ -98,9 +98,9 @@ class C02(Monitor):
         retr = set(tr.post.mem)
         if tr.post.archived and tr.post.arch:
             retr |= set(tr.post.arch)
-        legit = kind in ('clear', 'clearks', 'redec', 'reclone', 'newarch', 'aclear') or not tr.pre.archived \
+        legit = kind in ('clear', 'clearks', 'redec', 'reclone', 'newarch', 'newarchc', 'aclear') or not tr.pre.archived \
             or (kind == 'arch' and tr.pre.archived != tr.post.archived)     # a toggle that really toggles
-        if kind == 'newarch':
+        if kind in ('newarch', 'newarchc'):
             # the corollary speaks about one lossless archive staying attached: replacing it restarts the at-most-once
             # accounting for everything the new archive does not hold (the per-call clause is still checked)
             retr = set(tr.post.arch or ()) if tr.post.archived else set()
@@ -280,7 +280,7 @@ class C07(Monitor):
         kind = tr.ev[0]
         if tr.incoherent:
             return out
-        if kind in ('newarch', 'aclear') and tr.pre.mem:
+        if kind in ('newarch', 'newarchc', 'aclear') and tr.pre.mem:
             self.replaced = True       # memory now holds entries that the attached archive does not
         out = self._step(S, tr, kind)
         if not tr.post.mem or kind == 'redec':
@@ -290,6 +290,9 @@ class C07(Monitor):
     def _step(self, S, tr, kind):
         cfg = self.cfg
         out = []
+        if kind in ('newarch', 'newarchc') and tr.exc is None and not tr.post.archived:
+            out.append((_sig(cfg, 'C07', 'archive-not-attached', event=kind),
+                        'after f.archive(obj) the cache is not archived (archived() is False): evictions will be dropped'))
         if kind in CALLS and tr.pre.archived and tr.post.arch is not None:
             new = {}
             if kind == 'call' and tr.exc is None and tr.logdelta:
@@ -324,7 +327,7 @@ class C07(Monitor):
         retr = dict(tr.post.mem)
         if tr.post.arch:
             retr.update(tr.post.arch)
-        if kind in ('clear', 'clearks', 'redec', 'reclone', 'newarch', 'aclear') or not tr.pre.archived or not tr.post.archived:
+        if kind in ('clear', 'clearks', 'redec', 'reclone', 'newarch', 'newarchc', 'aclear') or not tr.pre.archived or not tr.post.archived:
             # explicit clear, or archive not attached: losses are legitimate
             for k in list(self.computed):
                 if k not in retr:
